@@ -925,6 +925,73 @@ def o_poly_assembly(mir, tier, seed):
     return dict(theory='Real; rings opaque, add_ring modelled by its contract (adds an arbitrary two-dimensional weighted centroid per ring); add_line_string / add_weighted_centroid recorded', functions=['CentroidOperation::add_polygon', 'WeightedCentroid::sub_assign'], paths=npaths, status=st, info=info, model=None, replay=('centroid_contributions', ''))
 
 
+@obligation('C06', 'centroid_collection_traversal', 'the loops of the centroid accumulation, members opaque: add_multi_point adds every point exactly when nothing of higher dimension has been accumulated (0-3 points, every current dimension); add_multi_line_string / add_line_string likewise for dimension <= 1 (a 1-coordinate line string contributes its coordinate, otherwise one add_line per segment, in order); add_multi_polygon and add_geometry_collection add every member once, in order; add_geometry dispatches each of the 10 variants to the matching add_* with the wrapped value')
+def o_centroid_traversal(mir, tier, seed):
+    from mir2smt import SliceIter
+    C = r'centroid::<impl at geo/src/algorithm/centroid\.rs:44\d:1: [^>]*>::'
+    T = RealTheory()
+    bad, npaths = 0, 0
+    dims = ['Empty', 'ZeroDimensional', 'OneDimensional', 'TwoDimensional']
+    rank = {d: i for i, d in enumerate(dims)}
+
+    def run(fname, arg, cur_dim, lines=None):
+        events = []
+
+        def rec(name):
+            def f(ip, d):
+                events.append((name, canon(d[1])))
+                return []
+            return f
+        uf = {'re:CentroidOperation::<\\w+>::centroid_dimensions': lambda ip, d: Enum(cur_dim)}
+        for nm in ('add_coord', 'add_line', 'add_line_string', 'add_polygon', 'add_multi_point', 'add_multi_line_string', 'add_multi_polygon', 'add_geometry_collection', 'add_rect', 'add_triangle', 'add_geometry'):
+            if nm != fname:
+                uf['re:CentroidOperation::<\\w+>::%s' % nm] = rec(nm)
+        if lines is not None:
+            uf['re:geo_types::LineString::<\\w+>::lines'] = lambda ip, d: SliceIter(list(lines))
+        uf['re:<&geo_types::GeometryCollection<\\w+> as IntoIterator>::into_iter'] = lambda ip, d: SliceIter(deref(d[0])[0])
+        ip = Interp(mir, T, EXTRA, uf)
+        outs = ip.call_fn(mir.find('geo', C + fname), [Ref(lambda: ['op']), Ref(lambda: arg)], z3.BoolVal(True))
+        return len(outs), events
+    for cur in dims:
+        for n in (0, 1, 2, 3):
+            # multi point: members are Points (tuple struct around a coordinate)
+            np_, ev = run('add_multi_point', [[[('c', i)] for i in range(n)]], cur)
+            npaths += np_
+            want = [('add_coord', ('c', i)) for i in range(n)] if rank[cur] <= 1 else []
+            bad += (np_ != 1 or ev != want)
+            np_, ev = run('add_multi_line_string', [[('ls', i) for i in range(n)]], cur)
+            npaths += np_
+            want = [('add_line_string', ('ls', i)) for i in range(n)] if rank[cur] <= 2 else []
+            bad += (np_ != 1 or ev != want)
+            np_, ev = run('add_multi_polygon', [[('poly', i) for i in range(n)]], cur)
+            npaths += np_
+            bad += (np_ != 1 or ev != [('add_polygon', ('poly', i)) for i in range(n)])
+            np_, ev = run('add_geometry_collection', [[('geom', i) for i in range(n)]], cur)
+            npaths += np_
+            bad += (np_ != 1 or ev != [('add_geometry', ('geom', i)) for i in range(n)])
+        for n in (0, 1, 2, 3, 4):
+            coords = [('c', i) for i in range(n)]
+            segs = [(('c', i), ('c', i + 1)) for i in range(n - 1)]
+            np_, ev = run('add_line_string', [coords], cur, lines=segs)
+            npaths += np_
+            if rank[cur] > 2:
+                want = []
+            elif n == 1:
+                want = [('add_coord', ('c', 0))]
+            else:
+                want = [('add_line', s_) for s_ in segs]
+            bad += (np_ != 1 or ev != want)
+    for variant, target in (('Point', 'add_coord'), ('Line', 'add_line'), ('LineString', 'add_line_string'), ('Polygon', 'add_polygon'), ('MultiPoint', 'add_multi_point'),
+                            ('MultiLineString', 'add_multi_line_string'), ('MultiPolygon', 'add_multi_polygon'), ('GeometryCollection', 'add_geometry_collection'), ('Rect', 'add_rect'), ('Triangle', 'add_triangle')):
+        inner = [('the-coord',)] if variant == 'Point' else ('inner', variant)
+        np_, ev = run('add_geometry', Enum(variant, [inner]), 'Empty')
+        npaths += np_
+        want = [(target, ('the-coord',) if variant == 'Point' else ('inner', variant))]
+        bad += (np_ != 1 or ev != want)
+    st, info, model = check_unsat('centroid_collection_traversal', [z3.BoolVal(bad > 0)])
+    return dict(theory='structural (every configuration run concretely: current dimension x member count); members opaque', functions=['CentroidOperation::{add_multi_point, add_multi_line_string, add_line_string, add_multi_polygon, add_geometry_collection, add_geometry}'], paths=npaths, status=st, info=info, model=None, replay=('centroid_contributions', ''))
+
+
 # ---- C07: which rings a polygon-polygon distance is taken between, and over which vertices
 
 def zmin(xs):
